@@ -212,7 +212,8 @@ func (w *writer) send(ctx context.Context, recipients []string, qosses []int32, 
 			case 1:
 				mid, err := w.getFree(ctx)
 				if err != nil {
-					return
+					L(ctx).Error("failed to write message to session", zap.Error(err), zap.String("session_id", sessionID))
+					continue
 				}
 				publish.MessageId = mid
 				err = w.sendQoS1(ctx, publish, session)
@@ -223,7 +224,8 @@ func (w *writer) send(ctx context.Context, recipients []string, qosses []int32, 
 			case 2:
 				mid, err := w.getFree(ctx)
 				if err != nil {
-					return
+					L(ctx).Error("failed to write message to session", zap.Error(err), zap.String("session_id", sessionID))
+					continue
 				}
 				publish.MessageId = mid
 				err = w.sendQoS2(ctx, publish, session)
